@@ -9,6 +9,13 @@ S2C: every sequence of start / stop / done / tick up to length L enumerated by T
      virtual clocks; deadlines are observed at IOLoop.add_timeout.  Ticks map to dyadic floats
      (1 s, 2^-19 s at epoch scale, 0.25 s, timedelta periods) so float arithmetic is exact.
 C2S: seeded random long runs recorded from the real object and validated by TLC.
+Proof: specs/loop/PeriodicProof.tla (TLAPS) - the arithmetic facts for all integers.
+
+Binding demonstrated during development (scratch worktree, see notes/loop.md): ceil instead of
+floor+1, recomputing from the current time in the clock-behind branch, scheduling the next run
+before awaiting the coroutine, stop() not removing the timeout, start() reading the asyncio clock,
+no reschedule after a raising callback - each reported as VIOLATION by the S2C replay; a recorded
+trace with one deadline changed by one tick is rejected by Trace_Periodic.
 """
 import random
 
@@ -114,8 +121,8 @@ def run(ctx):
                                   "Kinds": ctx.pick('{"coro"}', '{"coro", "cororaise", "sync"}')})
     rp = [(e, p) for e, p in rp if sum(1 for s in p if s["act"] == "start") > 1]
     ctx.replay(rp, periodic_replayer, label="s2c-periodic-restart")
-    n = ctx.pick(300, 10000)
-    traces = framework.pool_map(random_periodic_trace, [(i + 1, ctx.seed * 1000003 + i, ctx.pick(80, 150)) for i in range(n)])
+    n = ctx.pick(200, 10000)
+    traces = framework.pool_map(random_periodic_trace, [(i + 1, ctx.seed * 1000003 + i, ctx.pick(60, 150)) for i in range(n)])
     ctx.validate("loop", "Trace_Periodic", "Trace_Periodic.cfg", traces, label="c2s-periodic",
                  sig_fn=lambda t, bad, l: {"spec": "Periodic", "kind_": t["cfg"]["kind"]})
     # proof component: the arithmetic facts for all integers (TLAPS)
